@@ -4,6 +4,7 @@
 -/
 import ChessVerif.Lemmas.MirrorOutposts
 import ChessVerif.Lemmas.MirrorEndgame
+import ChessVerif.Lemmas.MirrorKPK
 namespace Chess.Props
 
 /-- **C13 on the general branch**: for every well-formed position `p` and every position `q` that carries its colour mirror (ranks
@@ -76,6 +77,27 @@ theorem C13_no_endgame (p q : Position) (hwf : Spec.wf (Chess.absPos p) = true) 
     rw [this]; exact hne e (1 - s) (by omega)
   exact C13_evalPure_partial p q hwf hq hside hcast (endgameScore_none p hne _) (endgameScore_none q hneq _)
 
+/-- **C13 on the KPK class** (where this tree's first C13 defect was: the pawn's rank normalised twice for Black): for every well-formed
+    position that the KPK endgame claims — for either strong side — `PositionScorer::score` of the colour-mirrored position equals
+    that of the position.  Lemmas/MirrorKPK.lean: the single pawn's square under the mirror (`lsb_mirror_single`), the bitbase
+    normalisation (`kpkNormalize_mirror`: flipping all three squares, the strong side and the side to move gives the same normalised
+    tuple), the value, and the dispatch (KPK is the first class; it cannot claim both strong sides). -/
+theorem C13_kpk (p q : Position) (hwf : Spec.wf (Chess.absPos p) = true) (hq : q.board = mirrorBoard p.board)
+    (hside : q.side = 1 - p.side) (hcast : q.castling = mirrorRights p.castling) (s : Nat) (hs : s ≤ 1)
+    (happ : egApplies .KPK (BBs.of p) p.board s = true) : evalPure q = evalPure p := by
+  obtain ⟨hbo, hs1, hkings, hcodes, hcnt⟩ := wf_board_hyps _ hwf
+  have m : MirrorPos p q := ⟨hq, hbo.len, hcodes⟩
+  obtain ⟨ks, hks, _⟩ := hkings s hs
+  obtain ⟨kw, hkw, _⟩ := hkings (1 - s) (by omega)
+  have he := endgameScore_kpk_mirror m hcnt s p.side hs hs1 ks kw hks hkw happ
+  unfold evalPure
+  simp only []
+  rw [hside, he]
+  by_cases hv : endgameScore (BBs.of p) p.board p.side ≠ VALUE_NONE
+  · rw [if_pos hv, if_pos hv]
+  · rw [if_neg hv, if_neg hv]
+    exact C13_general_branch p q hwf hq hside hcast
+
 /-- non-vacuity: a middlegame-like position (kings, a white knight and pawn, a black rook and pawn) is well-formed and no specialised
     endgame claims it or its mirror -/
 def c13gBoard : List Nat := (((((List.replicate 64 0).set 4 6).set 60 12).set 18 2).set 45 10).set 52 7 |>.set 12 1
@@ -99,5 +121,11 @@ theorem noEndgame_of_all (p : Position)
 
 set_option maxRecDepth 100000 in
 example : NoEndgame c13gPos := noEndgame_of_all c13gPos (by decide +kernel)
+
+/-- non-vacuity for `C13_kpk`: 8/5K2/2k1P3/8/8/8/8/8 w (the witness of the repaired defect) is well-formed and claimed by KPK for White -/
+def c13kBoard : List Nat := (((List.replicate 64 0).set 53 6).set 42 12).set 44 1
+def c13kPos : Position := { side := 0, halfmove := 0, ply := 1, board := c13kBoard, castling := 0, ep := 64, hash := {}, history := [] }
+set_option maxRecDepth 100000 in
+example : Spec.wf (Chess.absPos c13kPos) = true ∧ egApplies .KPK (BBs.of c13kPos) c13kPos.board 0 = true := by decide +kernel
 
 end Chess.Props
